@@ -189,6 +189,10 @@ func conventionalPager(sp pagerSpec, r *RNG) *Pager {
 					parts = append(parts, fmt.Sprintf("<strong>%d</strong>", i))
 				case 3:
 					parts = append(parts, fmt.Sprintf("[%d]", i))
+				case 4: // a note for screen readers, not rendered
+					parts = append(parts, fmt.Sprintf(`<span class="current">%d <span hidden>(current)</span></span>`, i))
+				case 5:
+					parts = append(parts, fmt.Sprintf(`%d<span style="display:none"> current page</span>`, i))
 				default:
 					parts = append(parts, fmt.Sprintf(`<span class="current">%d</span>`, i))
 				}
